@@ -89,10 +89,15 @@ def generate(seed, h, tier):
     cells = [list(grid()[i]) for i in idx]
     if tier == "quick" and h == 0:
         # fixed core of every quick run: the cells that lean on the documented workarounds (scenario rewrites for
-        # SLV / ALB / ECU, the NZL constant) with the resilient-food sets that trigger them, run in the middle of a
+        # SLV / ALB / ECU, the NZL constant, the 20 kcal shave needed with culled meat and no storage between years), run in the middle of a
         # long-lived process (never as its first job)
-        core_cells = [list(c) for c in grid() if c[0] in ("SLV", "ALB", "ECU", "NZL")
-                      and _GRID["presets"][c[1]].get("scenario") in ("seaweed", "all_resilient_foods", "all_resilient_foods_and_more_area")]
+        def _fragile(c):
+            o = _GRID["presets"][c[1]]
+            rewrite = o.get("scenario") in ("seaweed", "all_resilient_foods", "all_resilient_foods_and_more_area")
+            no_storage = str(o.get("ratio_stocks_untouched", "")).endswith("no_stored_between_years") and o.get("cull") == "do_eat_culled"
+            return (c[0] in ("SLV", "ALB", "ECU", "NZL") and (rewrite or no_storage)) or (c[0] == "WOR" and no_storage)
+
+        core_cells = [list(c) for c in grid() if _fragile(c)]
         cells = cells[:2] + core_cells
     if idx and fr.chance(0.6):
         # faults hit extra "sacrificial" jobs put in front of the history, never a grid cell of this
